@@ -1,7 +1,7 @@
 CONSTANT ISA = "x86"
 CONSTANT MAXK = 3
 CONSTANT DEVS = {}
-CONSTANT MODELSET = {1,2,3,4,5,6,7,8,9,10,11,12,13,14,15,16,17,18,19,20,21,22,23,24,25,26,27,28,29,30,31,32}
+CONSTANT MODELSET = {2, 3, 7, 12, 18, 20, 27, 32}
 SPECIFICATION Spec
 INVARIANT TypeOK
 INVARIANT Inert
